@@ -8,6 +8,21 @@ BASELINE = ("cd /repo && /venv/bin/python -m pytest -ra -q -p no:cacheprovider -
             "--continue-on-collection-errors")
 
 CHECKS = {
+    "C01": dict(
+        text=("Theorems over an abstract pair primitive (all ordered object pairs of a bin and patch pair with weight "
+              "product and separation): both dispatch modes of the generated dispatch_counts give the exact fine-bin "
+              "counts; nearest-edge summation over the merged grid telescopes to all pairs in (theta_min, theta_max] for "
+              "one or many overlapping scales; separation weighting contributes w*omega_k/sum(omega) per pair of fine "
+              "bin k; iter_patch_id_pairs emits, for EVERY pop order, exactly the diagonal and the guarded linked pairs "
+              "(permutation proof => exactly once); the generated link predicate is sound for any pseudo-metric "
+              "(triangle inequality) so pruned patch pairs hold no pair below the pruning angle; assembling gives "
+              "count_pairs_eq_spec_partial (auto: unordered pairs once, halved diagonal). PARTIAL: exact ties of a "
+              "separation with the pruning angle (strict '<' in the link predicate, witness theorem) are excluded by "
+              "hypothesis H3 - not exhibitable in floats; the KD-tree is assumed to count the primitive exactly. "
+              "Tie: generated kernels + AST pins of the glue; AngularTree.count / PatchLinkage compared with the Lean "
+              "model on real trees; full measurements compared with an independent O(n^2) oracle."),
+        ref="5.C01", technique="Lean 4 theorems over translator-generated kernels + correspondence + independent brute-force oracle",
+        note="scipy KDTree.count_neighbors exact on stored floats (validated); guard band 1e-9 on separations; astropy distances trusted"),
     "C03": dict(
         text=("Theorems (Lean 4, all N, B, k): the generated sample_patch_sum kernel equals the leave-one-out sum, "
               "which equals the total recomputed on the arrays with row/column k removed; same for the weight-product "
